@@ -381,6 +381,12 @@ class NumpyModel:
                 return f(node, *args, **kwargs)
             if last in alg_exc_names():
                 return ExcVal(last, args=tuple(args), node=node)
+        if root == "re" and last in ("split", "sub", "match", "fullmatch", "search", "findall") and all(isinstance(a, (str, int)) for a in args):
+            import re as _re
+            r = getattr(_re, last)(*args, **kwargs)
+            if last in ("match", "fullmatch", "search"):
+                return None if r is None else Record(None, {"group0": r.group(0)}, label="re.Match")
+            return r
         if root == "collections" and last == "namedtuple":
             tname, fields = args[0], list(I.iterate(args[1], node))
             cls = Record(None, {"_fields": tuple(fields), "__name__": tname}, label=f"namedtuple {tname}")
